@@ -713,7 +713,8 @@ struct HeapEngine : Engine {
         if (regs.size() > 6) { for (std::size_t i = regs.size(); i > 1; --i) std::swap(regs[i - 1], regs[r.below(i)]); regs.resize(6); }
         bool containers = !fm && r.chance(2, 3);
         bool yielding = tasks > 1;
-        unsigned nsteps = (unsigned)r.range(4, 40);
+        // many short diverse runs; in the thorough tier one run in ten is a long history (deep live sets, long reuse chains)
+        unsigned nsteps = (tier == "thorough" && r.chance(1, 10)) ? (unsigned)r.range(100, 400) : (unsigned)r.range(4, 40);
         for (unsigned k = 0; k < nsteps; ++k) {
             Step s; unsigned w = (unsigned)r.below(100); const HOps& o = reg[regs[r.below(regs.size())]];
             auto heapchoices = [&](Step& st, bool single) {
